@@ -221,6 +221,8 @@ def _chain(rc: RuleCtx, name: str, pop_signs):
     if len(fors) != 1:
         raise AnalysisError(f"{fi.qualname}: expected one scan loop")
     loop = fors[0]
+    from . import common as _common
+    _common.READ_LOOPS[fi.qualname] = (fi, loop)          # (exits in front of the scan and the form of the return after it are audited)
     k = fi.node.body.index(loop)
     env = {pname: pts}
     env.update(bound)
@@ -372,6 +374,8 @@ def _graham(rc: RuleCtx):
     if len(fors) != 1:
         raise AnalysisError("graham_scan: expected one scan loop")
     loop = fors[0]
+    from . import common as _common
+    _common.READ_LOOPS[fi.qualname] = (fi, loop)
     w = _popping_while(fi, loop)
     sp = ev.point("sp", True)
     ev.len_map["sp"] = sym("m")
